@@ -307,7 +307,7 @@ fn mutate(g: &G, op: u8, s: u64) -> G {
                     _ => {
                         if !p.holes.is_empty() {
                             let h = p.holes[0].clone();
-                            p.holes[0] = if pick(2, 2) == 0 { vec![h[0], h[1], h[0]] } else { vec![h[0], h[1], h[0], h[0]] };
+                            p.holes[0] = match pick(3, 2) { 0 => vec![h[0], h[1], h[0]], 1 => vec![h[0], h[1], h[0], h[0]], _ => vec![h[0]] };
                         } else {
                             p.ext = vec![a];
                         }
